@@ -1,7 +1,7 @@
 (* C03 — SRC sections display the encoded words, flags and every callout faithfully. *)
 From Coq Require Import List NArith ZArith Bool Arith.
 From PV Require Import Base.Bytes Base.Lit Base.Json Base.Reader Base.PelTypes Model.Parse Model.Render Spec.Encode Spec.DocOf Gen.Tables
-                       Proofs.SrcFacts Proofs.RenderFacts Proofs.SrcRenderFacts.
+                       Proofs.SrcFacts Proofs.RenderFacts Proofs.SrcRenderFacts Proofs.RegistryFacts.
 Import ListNotations.
 Open Scope N_scope.
 
@@ -49,9 +49,36 @@ Print Assumptions C03_callouts_display.
 
 (* reference code, word count, hex words 2..9, format/version, the six flag bits, backplane CCIN: as the specification says *)
 Theorem C03_src_display : forall e c h creator s, structured e -> wf_hdr h -> wf_src s ->
+  error_details e (s_words s) (s_ascii s) <> None ->
   render_src e c h [creator] s = Some (doc_src (se_of e) (sp_of e) (allow_plugins c) creator h s).
 Proof. exact render_src_spec. Qed.
 Print Assumptions C03_src_display.
+
+(* a registry message, when one is defined for the reason code, is filled with the referenced hex words: the entry is the first
+   one of the SRC's type whose reason code contains "0x" + characters 4..7 of the reference code; "SRCWordN" refers to hex word N;
+   for messages whose placeholders are %1, %2, .. in this order the positional filling the code performs is the filling by number *)
+Theorem C03_registry_entry : forall reg code ty p, reg_find reg code ty = Some p ->
+  exists pre post rc, reg = pre ++ p :: post /\ r_reason p = Some rc /\ substrb code rc = true /\
+    text_eqb ty (match r_type p with Some t => t | None => L "BD" end) = true.
+Proof. exact registry_entry_first. Qed.
+Print Assumptions C03_registry_entry.
+Theorem C03_registry_message : forall ws p srcs ns, length ws = 8%nat -> r_args p = Some srcs -> Forall2 names_word srcs ns ->
+  ordered (r_message p) 0 (length ns) = true ->
+  build_message ws p = Some (fill_by_number (r_message p) (map (fun n => hex_of (referenced_word ws n)) ns)).
+Proof. exact registry_message_filled. Qed.
+Print Assumptions C03_registry_message.
+Theorem C03_registry_message_plain : forall ws p, r_args p = None -> build_message ws p = Some (r_message p).
+Proof. exact registry_message_plain. Qed.
+Print Assumptions C03_registry_message_plain.
+Theorem C03_registry_word : forall ws w d n acc, length ws = 8%nat -> rw_desc w = Some d -> rw_num w = [48 + n] -> 2 <= n <= 9 ->
+  hexword_descs ws [w] acc = Some (obj_set acc (rw_source w) (JArr [jn (referenced_word ws n); js d])).
+Proof. exact registry_word_desc. Qed.
+Print Assumptions C03_registry_word.
+Example C03_registry_example :
+  build_message [1; 2; 3; 4; 171; 6; 7; 8]
+    {| r_reason := Some (L "0x2030"); r_type := None; r_message := L "word %1 then %2"; r_args := Some [L "SRCWord6"; L "SRCWord9"]; r_words := [] |}
+  = Some (L "word 0xab then 0x8").
+Proof. vm_compute. reflexivity. Qed.
 
 (* non-vacuity: two callouts, the first followed directly by one whose location code starts with "ID" *)
 Example C03_example :
